@@ -699,8 +699,8 @@ def multifan(kind, churn, initial=(0, 1, 2), s_=4):
 FAN_INV = ["InvThroughout", "InvNoDuplicates", "InvNoPhantomRefs"]
 
 
-def multichan(script_procs, initial, maxs=2, n=4):
-    return {"N": n, "W": 4 * n, "MaxS": maxs, "Procs": list(range(script_procs)), "Initial": set(range(initial))}
+def multichan(script_procs, initial, maxs=2, n=4, kind="arc"):
+    return {"N": n, "W": 4 * n, "MaxS": maxs, "Procs": list(range(script_procs)), "Initial": set(range(initial)), "Kind": '"%s"' % kind}
 
 
 MCH_STRUCT = list(cover.MULTICHAN_INV)
@@ -928,6 +928,28 @@ def C05(c):
         out.append(sc)
         return out
     run_multi(c, MULTI_NONLOG, build, checks, procs=4)
+    # MultiChan with Kind = "ogre" (L2): OgreArc::new from the allocator's free list, references += running_streams_count before the fan-out, one raw
+    # copy per listed listener, every handle drop a fetch_sub (the one that finds 1 destroys the payload and returns the slot).  TLC checks
+    # InvNoUseAfterFree / InvRefsExact on every reachable state; every transition of the small graph is replayed into the real OgreArc atomic
+    # Multi channel, validated scheduling point by scheduling point against MultiChan and judged by the L1 destruction verdicts
+    ogre_inv = tuple(MCH_STRUCT) + tuple(MCH_DELIVERY) + ("InvNoUseAfterFree", "InvPoolBounds", "InvRefsExact")
+    safety = ["InvNoUseAfterFree", "InvDestroyedAtMostOnce", "InvNoInvention", "InvAtMostOncePerListener", "NoPanic"]
+    c.mc("MC_MultiChan", "ogre_1p2l", multichan(3, 2, kind="ogre"), subst={"Script": "Script_1p2l"}, invariants=list(ogre_inv), deadlock=False,
+         required_actions=MCH_ACTIONS + ["PoolDeqRelease", "SendIncRefs", "HandleDrop", "PoolEnqPublish"], timeout=1200, workers=8)
+    cover.cover_multichan(c, "multichan_ogre_1p2l", [[S(11)], [DRIVE(0, max_=1)], [DRIVE(1, max_=1)]], safety, initial=2, invariants=ogre_inv, kind="ogre", max_paths=2500 if quick else None)
+    if not quick:
+        cover.cover_multichan(c, "multichan_ogre_2ev", [[S(11), S(12)], [DRIVE(0, max_=2)]], safety, initial=1, invariants=ogre_inv, kind="ogre")
+
+    # a send overlapping the removal of a listener whose id is then reused, another listener holding its handle meanwhile: whatever the
+    # (recorded) churn finding does to delivery, no payload may be destroyed while a handle to it exists, nor twice
+    def build_churn(kind):
+        out = []
+        th = [[S(11)], [DROPS(1), CREATE(), POLL(2, hold=True), RELALL], [POLL(0, hold=True), RELALL]]
+        out += explore2("%s_churn_reuse" % kind, kind, 4, 2, th, c, mr * 2, rr * 2, pre_streams=2, drain=False)
+        th = [[S(11), S(12)], [DROPS(1), CREATE(), DRIVE(2, max_=2)], [DRIVE(0, max_=2, hold=True), RELALL]]
+        out += explore2("%s_churn_reuse2" % kind, kind, 4, 2, th, c, mr, rr, seed_extra=5, pre_streams=2, drain=False)
+        return out
+    run_multi(c, MULTI_OGRE, build_churn, ["InvNoUseAfterFree", "InvDestroyedAtMostOnce", "NoPanic"], procs=4, tag="_churn")
 
 
 def C07_multi(c):
